@@ -77,7 +77,10 @@ def dual_ops(rs, rx):
 
 
 NUMERIC_ONLY = {'starmap(+)', 'flat_map', 'stddev', 'formal.stddev(reduce)', 'to_array(d)', 'clip(1,5)', 'variance', 'formal.variance', 'mean()', 'max()', 'min(reduce)', 'sum()', 'sum(reduce)', 'map(+1)', 'map(*2)',
-                'filter(odd)', 'filter(truthy int)', 'scan(sum)', 'assert_(>=0)'}
+                'filter(odd)', 'filter(truthy int)', 'scan(sum)', 'assert_(>=0)',
+                # their branch lambdas compute on numbers: fed with tuples / lists they raise, and behind a cut (take(0), first) only the multiplexed
+                # mode still evaluates them (that is known finding KF5, not a new failure)
+                'tee_map(filter,map;combine_latest)', 'tee_map(map,map;merge)', 'tee_map(map->None for odd,filter>1;zip)', 'tee_map(map->None for even,map;combine_latest)'}
 
 
 def compatible(names):
